@@ -375,6 +375,10 @@ class Unit:
                     continue
                 h = hits[0]
                 hend = s_off + h.end()
+                if any(e.start <= s_off + h.start() < e.end for e in edits if e.end > e.start and e.origin and e.origin[0] == 'spec'):
+                    # the closure sits inside a region that an outline / replace directive already rewrote: nothing to annotate
+                    self.hints_dropped.append('%s :: %s: closure `%s` lies inside an outlined region (directive not needed on this tree)' % (rel, selector, old))
+                    continue
                 k = item.start
                 while k < item.end and toks[k].start < hend:
                     k += 1
